@@ -7,7 +7,9 @@ VARIABLES l, bad
 Trace == ndJsonDeserialize("trace.ndjson")
 OK(ev) ==
   /\ ~ev.abort /\ ev.panic = "" /\ ~ev.hung
-  /\ ev.full /\ ev.n_reported = ev.n /\ ev.runid_ok /\ ev.offset_used = ev.announced_offset    \* the announced values are the ones used
+  /\ ev.full /\ ev.n_reported = ev.n /\ ev.runid_ok /\ ev.offset_used = ev.announced_offset    \* the announced values are the ones used ...
+  /\ ev.re_runid_ok /\ ev.re_off_ok                                      \* ... also afterwards: a re-PSYNC (source hung up) carries the announced run id
+                                                                         \*     and asks for the byte after what has been received
   /\ IF ev.mode = "psync"
        THEN ev.out_len = ev.want_len /\ ev.out_diff = -1                  \* exactly RDB ++ commands came out of the pipe
        ELSE /\ ev.file_len = ev.n /\ ev.file_diff = -1                    \* dump file = the n RDB bytes
